@@ -28,14 +28,21 @@ def case_strategy(draw, name):
               weights=draw(st.sampled_from(['none', 'none', 'array', 'list', 'int', 'uniform', 'scaled'])),
               wscale=draw(st.integers(-3, 3)), logtol=draw(st.floats(-5, -2, allow_nan=False)),
               max_iter=draw(st.sampled_from([1, 3, 50, 400, 400])), satisfied=draw(st.integers(0, 7)) == 0,
-              collapsed=draw(st.integers(0, 3)) == 0, ncollapsed=draw(st.integers(1, 6)))
+              collapsed=draw(st.integers(0, 3)) == 0, ncollapsed=draw(st.integers(1, 6)), coarse=draw(st.integers(0, 3)) == 0)
 
 
 def check_c12(case, stats):
   name = case['est']
   data = gen.Data(case['desc'])
   d = data.d
+  if case.get('coarse'):
+    # points on a coarse grid: distinct points share single coordinates, quadruplets share points
+    step = float(np.abs(data.X).max()) / 4.0
+    data.X = np.round(data.X / step) * step
+    data._c = {}
   prior = gen.spd_from_seed(d, case['aseed']) if case['prior'] == 'array' else case['prior']
+  if isinstance(prior, np.ndarray) and case['aseed'] % 3 == 0:
+    prior = np.asfortranarray(prior)        # memory layout is not part of the matrix
   tol = 10.0 ** case['logtol']
   rstate = case['seed'] % 1000
   params = dict(prior=prior, tol=tol, max_iter=case['max_iter'], random_state=rstate)
